@@ -747,6 +747,12 @@ func (m *Mirror) handleFuturePrevoteProofs(
 		AllValidSignatures: true,
 	}
 	for hash, sparseSigs := range p.Proofs {
+		if len(sparseSigs) == 0 {
+			// An entry without signatures carries nothing;
+			// an empty proof must not be created and persisted for it.
+			continue
+		}
+
 		sparseProof := gcrypto.SparseSignatureProof{
 			PubKeyHash: p.PubKeyHash,
 			Signatures: sparseSigs,
@@ -1098,6 +1104,12 @@ func (m *Mirror) handleFuturePrecommitProofs(
 		AllValidSignatures: true,
 	}
 	for hash, sparseSigs := range p.Proofs {
+		if len(sparseSigs) == 0 {
+			// An entry without signatures carries nothing;
+			// an empty proof must not be created and persisted for it.
+			continue
+		}
+
 		sparseProof := gcrypto.SparseSignatureProof{
 			PubKeyHash: p.PubKeyHash,
 			Signatures: sparseSigs,
